@@ -84,8 +84,43 @@ def bind(g, mod, law):
     return binding, out
 
 
-def compile_side(e, symidx, out, at=None):
-    """symidx: symbol -> leaf index, (indexed base, k) -> leaf index of element k; at: {idx: k} inside a sum."""
+def exact_value(e, symidx, ctx, at=None):
+    """Exact rational value (sympy Rational, possibly times pi**k) of a sub-expression under the recorded values."""
+    import sympy as sp
+    from sympy.tensor.indexed import Indexed
+    if isinstance(e, Indexed):
+        key = (e.base, at[e.indices[0]]) if at and len(e.indices) == 1 and e.indices[0] in at else None
+        if key not in symidx:
+            raise Unsupported("indexed symbol outside a sum over its own sequence")
+        return ctx["vals"][symidx[key] - 1]
+    if e in symidx:
+        return ctx["vals"][symidx[e] - 1]
+    if e.is_Rational or e is sp.pi:
+        return e
+    from sympy.physics.units import Quantity as SymQuantity
+    if isinstance(e, SymQuantity):
+        v = si_rational(e)
+        if v is None or v[1] != 0:
+            raise Unsupported("physical constant with an inexact value inside the law")
+        return sp.Rational(v[0].numerator, v[0].denominator)
+    name = type(e).__name__
+    if name in ("IndexedSum", "IndexedProduct"):
+        body, idx = e.args[0], e.args[1]
+        n = max(sum(1 for key in symidx if isinstance(key, tuple) and key[0] == a.base) for a in body.atoms(Indexed))
+        parts = [exact_value(body, symidx, ctx, {**(at or {}), idx: k}) for k in range(n)]
+        return sp.Add(*parts) if name == "IndexedSum" else sp.Mul(*parts)
+    if isinstance(e, (sp.Add, sp.Mul)):
+        return e.func(*[exact_value(a, symidx, ctx, at) for a in e.args])
+    if isinstance(e, sp.Pow) and e.exp.is_Rational:
+        return exact_value(e.base, symidx, ctx, at) ** e.exp
+    raise Unsupported(type(e).__name__)
+
+
+def compile_side(e, symidx, out, at=None, ctx=None):
+    """symidx: symbol -> leaf index, (indexed base, k) -> leaf index of element k; at: {idx: k} inside a sum.
+    ctx (optional): {"vals": exact values of the leaves, "side": side conditions} - enables rational exponents:
+    x**(p/q) is compiled as r**p for a NEW leaf r whose recorded value is the exact positive q-th root of x's
+    value, together with the side condition r**q = x (itself decided by TLC)."""
     import sympy as sp
     from sympy.physics.units import Quantity as SymQuantity
     from sympy.tensor.indexed import Indexed
@@ -105,7 +140,7 @@ def compile_side(e, symidx, out, at=None):
         if n == 0:
             raise Unsupported("empty sequence")
         for k in range(n):
-            compile_side(body, symidx, out, {**(at or {}), idx: k})
+            compile_side(body, symidx, out, {**(at or {}), idx: k}, ctx)
         out.append(["add" if name == "IndexedSum" else "mul", n, 0])
     elif e.is_Integer:
         if abs(int(e)) >= 2**31 - 1:
@@ -119,17 +154,35 @@ def compile_side(e, symidx, out, at=None):
         out.append(["cst", 1, 0])
     elif isinstance(e, sp.Add):
         for a in e.args:
-            compile_side(a, symidx, out, at)
+            compile_side(a, symidx, out, at, ctx)
         out.append(["add", len(e.args), 0])
     elif isinstance(e, sp.Mul):
         for a in e.args:
-            compile_side(a, symidx, out, at)
+            compile_side(a, symidx, out, at, ctx)
         out.append(["mul", len(e.args), 0])
     elif isinstance(e, sp.Pow) and e.exp.is_Integer and abs(int(e.exp)) <= 64:
-        compile_side(e.base, symidx, out, at)
+        compile_side(e.base, symidx, out, at, ctx)
         out.append(["powi", int(e.exp), 0])
+    elif isinstance(e, sp.Pow) and e.exp.is_Rational and ctx is not None and int(e.exp.q) <= 4 and abs(int(e.exp.p)) <= 16:
+        q, p = int(e.exp.q), int(e.exp.p)
+        base_val = exact_value(e.base, symidx, ctx, at)
+        root = sp.sympify(base_val) ** sp.Rational(1, q)
+        if not (getattr(root, "is_Rational", False) and root > 0):
+            raise Unsupported("irrational root")
+        ctx["vals"].append(root)
+        leaf = len(ctx["vals"])
+        side_a, side_b = [["sym", leaf, 0], ["powi", q, 0]], []
+        compile_side(e.base, symidx, side_b, at, ctx)
+        ctx["side"].append((side_a, side_b))
+        out.append(["sym", leaf, 0])
+        if p != 1:
+            out.append(["powi", p, 0])
     elif isinstance(e, SymQuantity):
-        raise Unsupported("physical constant inside the law")
+        v = si_rational(e)          # an exactly known constant (speed of light ...) is one more leaf
+        if v is None or v[1] != 0 or ctx is None:
+            raise Unsupported("physical constant with an inexact value inside the law")
+        ctx["vals"].append(sp.Rational(v[0].numerator, v[0].denominator))
+        out.append(["sym", len(ctx["vals"]), 0])
     else:
         raise Unsupported(type(e).__name__)
 
@@ -174,18 +227,27 @@ def residues(fr: Fraction):
 
 
 def scale_args(seed, g, args, tup):
-    """Other magnitudes for the same function: multiply quantity arguments by powers of ten."""
+    """Arguments actually passed: every synthesised value is SQUARED (products and quotients of squares are
+    squares, so many laws with square roots stay inside the exact fragment), and from the second tuple on the
+    magnitudes are moved by even powers of ten."""
+    import sympy as sp
     from sympy.physics.units import Quantity as SymQuantity
     from symplyphysics import Quantity
-    if tup == 0:
-        return args
+
+    def one(p, a, k=0):
+        if isinstance(a, SymQuantity):
+            v = si_rational(a)
+            if v is None or v[1] != 0:
+                return a
+            e = (catalogue.stable_hash(seed, g.qualname, p, "mag", tup, k) % 3 - 1) * 4 if tup else 0
+            return Quantity(a * sp.Rational(v[0].numerator, v[0].denominator) * sp.Integer(10)**e)
+        if isinstance(a, sp.Rational) and not a.is_Integer:
+            return a * a
+        return a
+
     out = {}
     for p, a in args.items():
-        if isinstance(a, SymQuantity):
-            e = (catalogue.stable_hash(seed, g.qualname, p, "mag", tup) % 3 - 1) * 3
-            out[p] = Quantity(a * 10**e) if e >= 0 else Quantity(a / 10**(-e))
-        else:
-            out[p] = a
+        out[p] = [one(p, x, k) for k, x in enumerate(a)] if isinstance(a, list) else one(p, a)
     return out
 
 
@@ -248,13 +310,6 @@ def records_for(g, mod, seed, tuples):
                 symidx[binding[p]] = len(order)
         order.append(res)
         symidx[out_sym] = len(order)
-        try:
-            a_prog, b_prog = [], []
-            compile_side(law.lhs, symidx, a_prog)
-            compile_side(law.rhs, symidx, b_prog)
-        except Unsupported as u:
-            und.append(f"law outside the arithmetic fragment: {u}")
-            break
         vals = []
         for x in order[:-1]:
             v = si_rational(x)
@@ -267,7 +322,19 @@ def records_for(g, mod, seed, tuples):
             und.append("result or argument is not an exact rational (float / irrational / sequence)")
             continue
         rfr, k = rv
-        pts = [residues(v) for v in vals + [rfr]]
+        ctx = {"vals": [sp.Rational(v.numerator, v.denominator) for v in vals] +
+                       [sp.Rational(rfr.numerator, rfr.denominator) * sp.pi**k], "side": []}
+        try:
+            a_prog, b_prog = [], []
+            compile_side(law.lhs, symidx, a_prog, None, ctx)
+            compile_side(law.rhs, symidx, b_prog, None, ctx)
+        except Unsupported as u:
+            und.append(f"law outside the arithmetic fragment: {u}")
+            if "root" not in str(u):
+                break
+            continue
+        roots = [Fraction(int(r.p), int(r.q)) for r in ctx["vals"][len(vals) + 1:]]
+        pts = [residues(v) for v in vals + [rfr] + roots]
         ptn = residues(-rfr)
         if any(x is None for x in pts) or ptn is None:
             und.append("value not representable mod p")
@@ -286,10 +353,17 @@ def records_for(g, mod, seed, tuples):
         rid = f"{g.qualname}#{tup}"
         recs.append({"id": rid, "a": with_pi(a_prog), "b": with_pi(b_prog),
                      "pt1": [x[0] for x in pts], "pt2": [x[1] for x in pts], "alt": alt,
-                     "pta1": [x[0] for x in pts[:-1]] + [ptn[0]], "pta2": [x[1] for x in pts[:-1]] + [ptn[1]],
+                     "pta1": [x[0] if i != len(vals) else ptn[0] for i, x in enumerate(pts)],
+                     "pta2": [x[1] if i != len(vals) else ptn[1] for i, x in enumerate(pts)],
                      "_info": {"function": g.qualname, "law": f"{lname}: {law}"[:300],
                                "arguments": {p: str(args[p])[:200] for p in g.params}, "si_values": [str(v) for v in vals],
-                               "result": str(res), "result_si": f"{rfr}" + (f"*pi**{k}" if k else "")}})
+                               "result": str(res), "result_si": f"{rfr}" + (f"*pi**{k}" if k else ""),
+                               "roots": [str(r) for r in roots]}})
+        for j, (sa, sb) in enumerate(ctx["side"]):      # r**q = radicand, decided by TLC as well
+            recs.append({"id": f"{rid}/root{j}", "a": with_pi(sa), "b": with_pi(sb),
+                         "pt1": [x[0] for x in pts], "pt2": [x[1] for x in pts], "alt": False,
+                         "pta1": [x[0] for x in pts], "pta2": [x[1] for x in pts],
+                         "_info": {"function": g.qualname, "side_condition": True}})
     return recs, und
 
 
@@ -346,6 +420,11 @@ def main() -> int:
             raise RuntimeError("verdicts do not cover the recorded calls")
         counts = {}
         for rid, v in verdicts.items():
+            if info[rid].get("side_condition"):
+                if v != "HOLDS":
+                    raise RuntimeError(f"side condition {rid} (exact root) does not hold: {v}")
+                counts["root side conditions HOLD"] = counts.get("root side conditions HOLD", 0) + 1
+                continue
             counts[v] = counts.get(v, 0) + 1
             run.traces += 1
             run.count(rid)
